@@ -328,6 +328,19 @@ func (e *Engine) gfieldLookup(pkgPath, name string) (*GhostField, string, bool) 
 	return nil, "", false
 }
 
+// ghostArrSort: sort of the ghost heap of field `name`: an array from the sort
+// of its parameter (Int for pointers and interfaces, a datatype for struct
+// values such as pdata wrappers) to its result sort.
+func (e *Engine) ghostArrSort(vc *VC, name string) string {
+	idx := "Int"
+	for _, g := range e.gfields {
+		if g.Name == name && g.sig != nil {
+			idx = vc.sortOf(g.sig.Params().At(0).Type())
+		}
+	}
+	return fmt.Sprintf("(Array %s %s)", idx, e.ghostFieldSort(name))
+}
+
 func (e *Engine) ghostFieldSort(name string) string {
 	if s, ok := e.ghostFields[name]; ok {
 		return s
